@@ -9,22 +9,15 @@ import Mistral.Lemmas.SemInv
 namespace Mistral.Sem
 open Mistral Mistral.Join Mistral.Engine
 
-/-- an admissible event: plain and not a stale re-start -/
-def admissibleB (orc : String → Bool) (w : World) (e : Event) : Bool := plainB orc e && !staleB w e
+/-- an admissible event = a plain event (since the fix of `_run_existing` a stale start request is
+    ignored, so no further exclusion is needed) -/
+def admissibleB (orc : String → Bool) (_w : World) (e : Event) : Bool := plainB orc e
 
 theorem adm_not_stop (orc : String → Bool) (w : World) (t : St) : admissibleB orc w (.stop t) = false := rfl
 
 theorem adm_execute (orc : String → Bool) (w : World) (t : Tid) (ok : Bool)
     (h : admissibleB orc w (.execute t ok) = true) : ok = orc t.1 := by
-  simpa [admissibleB, plainB, staleB] using h
-
-theorem adm_not_stale (orc : String → Bool) (w : World) (t : Tid) (r : TaskRow)
-    (h : admissibleB orc w (.deliver (.rpcStartTask t false)) = true)
-    (hp : w.pending.contains (.rpcStartTask t false) = true) (hr : findTask w t = some r) : r.state ≠ .ERROR := by
-  intro he
-  have hp' : Item.rpcStartTask t false ∈ w.pending := by simpa using hp
-  simp [admissibleB, plainB, staleB, hr, he] at h
-  exact h hp'
+  simpa [admissibleB, plainB] using h
 
 /-! ### workflow state moves -/
 
@@ -63,8 +56,7 @@ theorem row_nonjoin_res (sp : Spec) (orc : String → Bool) (rk : String → Nat
 
 theorem sinv_rpcStartTask (sp : Spec) (orc : String → Bool) (rk : String → Nat) (hsp : SemSpec sp rk)
     (w : World) (t : Tid) (firstRun : Bool) (h : SInv sp orc w) (hnij : NoIdleJoin sp w.tasks)
-    (hrerun : firstRun = false → isJoin sp t.1 = none)
-    (hstale : firstRun = false → ∀ r, findTask w t = some r → r.state ≠ .ERROR) :
+    (hrerun : firstRun = false → isJoin sp t.1 = none) :
     SInv sp orc
       (match findTask w t with
       | none => w
@@ -78,6 +70,7 @@ theorem sinv_rpcStartTask (sp : Spec) (orc : String → Bool) (rk : String → N
           else checkAffected sp w t
         else
           if r.state == .SUCCESS then w
+          else if isCompleted r.state then w
           else if r.state == .RUNNING && hasLiveAction w t then w
           else { w with tasks := setTask w.tasks { r with state := .RUNNING, processed := false },
                         pending := w.pending ++ [.postRunAction t] }) := by
@@ -121,27 +114,25 @@ theorem sinv_rpcStartTask (sp : Spec) (orc : String → Bool) (rk : String → N
       have hf : firstRun = false := by simpa using hfirst
       split
       · exact h
-      · rename_i hns
-        split
+      · split
         · exact h
-        · have hnj : isJoin sp r.name = none := by rw [← hname]; exact hrerun hf
-          have hwf : isCompleted w.wf = false := by
-            cases hw : isCompleted w.wf with
-            | false => rfl
-            | true =>
-              have hc := h.done hw r hrm
-              rcases rowOK_completed_state sp orc rk hsp r hrow hc with h1 | h1
-              · rw [h1] at hns; simp at hns
-              · exact absurd h1 (hstale hf r hfr)
-          have h1 := sinv_setRow sp orc w { r with state := .RUNNING, processed := false } h
-            (rowOK_incomplete sp orc _ hrow.1 (by show isCompleted St.RUNNING = false; decide)) hwf
-          exact sinv_addItems sp orc _ [.postRunAction t] h1 (by
-            intro it hi
-            have : it = .postRunAction t := by simpa using hi
-            rw [this]
-            show sem sp orc t.1 = some (res orc t.1)
-            rw [hname]
-            exact row_nonjoin_res sp orc rk hsp r hrow hnj)
+        · rename_i hnc
+          split
+          · exact h
+          · have hnj : isJoin sp r.name = none := by rw [← hname]; exact hrerun hf
+            have hwf : isCompleted w.wf = false := by
+              cases hw : isCompleted w.wf with
+              | false => rfl
+              | true => exact absurd (h.done hw r hrm) hnc
+            have h1 := sinv_setRow sp orc w { r with state := .RUNNING, processed := false } h
+              (rowOK_incomplete sp orc _ hrow.1 (by show isCompleted St.RUNNING = false; decide)) hwf
+            exact sinv_addItems sp orc _ [.postRunAction t] h1 (by
+              intro it hi
+              have : it = .postRunAction t := by simpa using hi
+              rw [this]
+              show sem sp orc t.1 = some (res orc t.1)
+              rw [hname]
+              exact row_nonjoin_res sp orc rk hsp r hrow hnj)
 
 theorem sinv_rpcResult (sp : Spec) (orc : String → Bool) (rk : String → Nat) (hsp : SemSpec sp rk)
     (w : World) (t : Tid) (ok : Bool) (h : SInv sp orc w) (hit : ItemOK sp orc (.rpcResult t ok)) :
@@ -388,12 +379,9 @@ theorem step_sinv (sp : Spec) (orc : String → Bool) (rk : String → Nat) (hsp
             rw [this]; trivial)
       | rpcStartTask t firstRun =>
         apply sinv_rpcStartTask sp orc rk hsp _ t firstRun h0 hji.1
-        · intro hf
-          subst hf
-          exact hji.2 _ hmem rfl t false (Or.inr rfl)
-        · intro hf r hr
-          subst hf
-          exact adm_not_stale orc w t r ha (by simpa using hc) hr
+        intro hf
+        subst hf
+        exact hji.2 _ hmem rfl t false (Or.inr rfl)
       | rpcResult t ok => exact sinv_rpcResult sp orc rk hsp _ t ok h0 (h.items _ hmem)
       | jobRefresh t => exact sinv_jobRefresh sp orc rk hsp _ t h0
 
